@@ -119,7 +119,7 @@ def close_pool():
 
 
 def _has_timeout(o):
-    return o['build'][0] == 'timeout' or any(x and x[0] == 'timeout' for x in o['obs'])
+    return o['build'][0] == 'timeout' or any(isinstance(x, (list, tuple)) and x and x[0] == 'timeout' for x in o['obs'])
 
 
 def run_real(cases, fn='observe_case', hooks=False, batch=25, confirm_timeouts=True):
